@@ -338,6 +338,10 @@ def _worker_run(i):
     return i, explore_root(check, _W["roots"][i], _W["depth"], _W["deadline"], _W["conf"])
 
 
+def _worker_run_chunk(idx):
+    return [_worker_run(i) for i in idx]
+
+
 class RunResult(object):
     def __init__(self):
         self.states = 0
@@ -379,11 +383,29 @@ def run_check(factory, tier, seed, jobs=None, cap_s=None):
         for i in range(len(roots)):
             results[i] = _worker_run(i)[1]
     else:
+        # a ProcessPoolExecutor (not mp.Pool): if the code under test kills a worker outright (heap corruption,
+        # a segfault in an extension module) the pool is reported broken instead of waiting for ever
+        from concurrent.futures import ProcessPoolExecutor, as_completed
+        from concurrent.futures.process import BrokenProcessPool
+
         ctx = mp.get_context("fork")
         chunk = max(1, len(roots) // (jobs * 8))
-        with ctx.Pool(jobs, initializer=_worker_init, initargs=(factory, tier, seed, depth, deadline, conf)) as pool:
-            for i, r in pool.imap_unordered(_worker_run, range(len(roots)), chunksize=chunk):
-                results[i] = r
+        chunks = [list(range(a, min(a + chunk, len(roots)))) for a in range(0, len(roots), chunk)]
+        ex = ProcessPoolExecutor(jobs, mp_context=ctx, initializer=_worker_init, initargs=(factory, tier, seed, depth, deadline, conf))
+        try:
+            futs = {ex.submit(_worker_run_chunk, c): c for c in chunks}
+            try:
+                for f in as_completed(futs):
+                    for i, r in f.result():
+                        results[i] = r
+            except BrokenProcessPool:
+                lost = [i for i in range(len(roots)) if results[i] is None]
+                raise HarnessError(
+                    "a worker process died while exploring (killed by a signal: memory corruption or a crash in an "
+                    "extension module); %d roots unfinished, first ones: %r" % (len(lost), [roots[i] for i in lost[:4]])
+                )
+        finally:
+            ex.shutdown(wait=False, cancel_futures=True)
     min_level = depth
     for r in results:
         out.states += r.states
